@@ -104,7 +104,35 @@ func crTier() string {
 	return "quick"
 }
 
+// when set, configReuseCase changes this one field of the caller's config value and nothing else
+var crOnly string
+
+// (profile the first server is built with, the single field changed afterwards)
+var crSingles = []struct {
+	p crProfile
+	f string
+}{
+	{crProfile{nosec: true, passive: true}, "Passive"},
+	{crProfile{nosec: true, ps: true}, "Passive"},
+	{crProfile{nosec: false, ps: true}, "NoSecurity"},
+	{crProfile{nosec: true, hook: 1, ps: true}, "OnQuery"},
+	{crProfile{nosec: true, lim: 1}, "SendLimiter"},
+	{crProfile{nosec: true, bl: true}, "IPBlocklist"},
+	{crProfile{nosec: false, passive: true, ps: true, annHook: true}, "Passive"},
+	{crProfile{nosec: true, ps: true, annHook: true}, "PeerStore"},
+	{crProfile{nosec: true, ps: true, annHook: true}, "OnAnnouncePeer"},
+	{crProfile{nosec: true, wait: true, lim: 2}, "WaitToReply"},
+	{crProfile{nosec: true}, "IPBlocklist"},
+	{crProfile{nosec: false, passive: true}, "NoSecurity"},
+}
+
 func configReuseCases(seed uint64, n int) {
+	for i := 0; i < 2; i++ {
+		sg := crSingles[(2*n+i)%len(crSingles)]
+		crOnly = sg.f
+		configReuseCase(seed, n, 100+i, sg.p, (n+i)%2 == 1, false)
+		crOnly = ""
+	}
 	// a fixed walk through the configurations that matter most, then random ones
 	fixed := []crProfile{
 		{nosec: false, hook: 1, ps: true, annHook: true},                // enforcing, answering
@@ -269,9 +297,13 @@ func configReuseCase(seed uint64, n, k int, A crProfile, sibling, all bool) {
 	// ---- the caller goes on using its value
 	changed := map[string]bool{}
 	for _, f := range crFields {
-		changed[f] = all || r.intn(2) == 0
+		changed[f] = (all || r.intn(2) == 0) && crOnly == ""
 	}
-	if !all { // at least one of the settings a node consults while it runs
+	if crOnly != "" {
+		// one field alone: the effect of a change is not masked by the others (a hook that vetoes everything or an
+		// exhausted limiter would hide a node that stopped being passive)
+		changed[crOnly] = true
+	} else if !all { // at least one of the settings a node consults while it runs
 		run := []string{"NoSecurity", "Passive", "OnQuery", "OnAnnouncePeer", "PeerStore", "WaitToReply", "SendLimiter"}
 		changed[run[r.intn(len(run))]] = true
 	}
